@@ -301,6 +301,58 @@ theorem c19_load_exact (sh : Str → Nat) (shard : Nat) (wt : Bool) (steps : Nat
     · rintro ⟨hk, hc, hown⟩
       exact .inr ⟨e.2, hc, hown, Prod.ext hk rfl⟩
 
+theorem loadAll_keeps (sh : Str → Nat) (shard : Nat) : ∀ (items : List Cond) (l : Loc) (e : Str × Cond),
+    e ∈ l → (∀ c ∈ items, ¬ c.name = e.2.name) → e ∈ loadAll sh shard items l := by
+  intro items
+  induction items with
+  | nil => intro l e he _; exact he
+  | cons c rest ih =>
+    intro l e he hne
+    simp only [loadAll]
+    split
+    · exact ih l e he (fun c' h' => hne c' (List.mem_cons_of_mem _ h'))
+    · apply ih _ e _ (fun c' h' => hne c' (List.mem_cons_of_mem _ h'))
+      exact mem_lput.2 (.inr ⟨he, fun hh => hne c (List.mem_cons_self ..) hh.2.symm⟩)
+
+theorem loadAll_covers (sh : Str → Nat) (shard : Nat) : ∀ (items : List Cond) (l : Loc),
+    items.Pairwise (fun c d => ¬ c.name = d.name) →
+    ∀ c ∈ items, sh c.upstream = shard → (c.upstream, c) ∈ loadAll sh shard items l := by
+  intro items
+  induction items with
+  | nil => intro l _ c hc; cases hc
+  | cons x rest ih =>
+    intro l hp c hc hown
+    obtain ⟨hx, hrest⟩ := List.pairwise_cons.1 hp
+    simp only [loadAll]
+    rcases List.mem_cons.1 hc with rfl | hc
+    · rw [if_neg (by simpa using hown)]
+      exact loadAll_keeps sh shard rest _ _ (mem_lput.2 (.inl rfl)) (fun c' h' hn => hx c' h' hn.symm)
+    · split
+      · exact ih l hrest c hc hown
+      · exact ih _ hrest c hc hown
+
+/-- **`Load` wins over what the cache held.** Whatever the store cached before (e.g. a periodic `Save` that reached a
+    store handed out before it was loaded — the `startLeading` window), after `Load` answered nil EVERY persisted
+    condition of the shard is cached exactly as persisted: the state of the previous holder is never shadowed by
+    something newer-looking that was not persisted. -/
+theorem c19_load_covers (sh : Str → Nat) (st st' : Store) (w w' : World)
+    (hn : ApiNodup w.api) (h : load sh st w = (st', w', .ok)) :
+    ∀ c ∈ persistedOf sh st.cfg.shard w.api, (c.upstream, c) ∈ st'.loc := by
+  unfold load at h
+  cases hL : apiList w with
+  | mk w1 r =>
+  rw [hL] at h
+  obtain ⟨_, _, _, hitems⟩ := apiList_spec w w1 r hL
+  cases r with
+  | error e => simp only [] at h; cases h
+  | ok items =>
+    have hi := hitems items rfl
+    simp only [] at h
+    cases h
+    intro c hc
+    simp only [persistedOf, List.mem_filter, decide_eq_true_eq] at hc
+    exact loadAll_covers sh st.cfg.shard items st.loc (hi ▸ hn) c (hi ▸ hc.1) hc.2
+
 /-- a `Load` that fails leaves the fresh store empty (the limiter then drops the store) -/
 theorem c19_load_failed (sh : Str → Nat) (shard : Nat) (wt : Bool) (steps : Nat) (w w' : World) (st' : Store) (e : Err)
     (h : load sh (newStore shard wt steps) w = (st', w', .err e)) : st'.loc = [] := by
